@@ -660,6 +660,60 @@ def _o7(ctx, result):
         raise AnalysisError(f"O7: only {n} graded/reverse call sites found (vacuity guard)")
 
 
+PRINT_KEYS = {"precision": "precision", "suppress_small": "suppress", "max_line_width": "linewidth",
+              "linewidth": "linewidth", "threshold": "threshold", "edgeitems": "edgeitems"}
+
+
+def _o7_printoptions(ctx, result):
+    """A parameter that defaults to a numpy print option takes the option of its own meaning."""
+    n = 0
+    for module, qual, func in ctx.repo.analysed_functions():
+        if module.is_pyx or "get_printoptions" not in ast.unparse(func):
+            continue
+        seen = set()
+        for path in ctx.paths_auto(module, func):
+            for step in path:
+                if step.kind != "stmt" or not isinstance(step.node, ast.Assign) or len(step.node.targets) != 1:
+                    continue
+                target = step.node.targets[0]
+                if not isinstance(target, ast.Name) or target.id not in PRINT_KEYS or id(step.node) in seen:
+                    continue
+                value = step.expand(step.node.value)
+                keys = []
+                todo = [value]
+                while todo:
+                    cur = todo.pop()
+                    if isinstance(cur, ast.IfExp):
+                        todo += [cur.body, cur.orelse]
+                    elif isinstance(cur, ast.Subscript) and isinstance(cur.slice, ast.Constant) \
+                            and isinstance(cur.value, ast.Call) and not is_S(cur.value) \
+                            and ctx.dotted(module, cur.value.func) == "numpy.get_printoptions":
+                        keys.append(cur.slice.value)
+                    elif isinstance(cur, ast.Call) and isinstance(cur.func, ast.Attribute) and cur.func.attr == "get" \
+                            and cur.args and isinstance(cur.args[0], ast.Constant) and isinstance(cur.func.value, ast.Call) \
+                            and ctx.dotted(module, cur.func.value.func) == "numpy.get_printoptions":
+                        keys.append(cur.args[0].value)
+                if not keys:
+                    continue
+                seen.add(id(step.node))
+                n += 1
+                ok = all(k == PRINT_KEYS[target.id] for k in keys)
+                value = ast.Subscript(value=ast.Name(id="printoptions", ctx=ast.Load()), slice=ast.Constant(
+                    next((k for k in keys if k != PRINT_KEYS[target.id]), keys[0])), ctx=ast.Load())
+                result.ob(f"O7 {module.name}.{qual}: '{target.id}' defaults to numpy print option "
+                          f"'{PRINT_KEYS[target.id]}'", ok, module.loc(step.orig), repr(value.slice.value))
+                if not ok:
+                    result.add(Finding(
+                        "R-OPT", module, qual, step.node,
+                        f"O7: '{target.id}' is filled from numpy print option '{value.slice.value}', expected "
+                        f"'{PRINT_KEYS[target.id]}': the text no longer follows numpy's print settings (e.g. small "
+                        f"coefficients are suppressed although suppress=False)",
+                        construct=f"{target.id} <- printoptions[{value.slice.value!r}]"))
+    result.info["printoption_defaults"] = n
+    if n < 1:
+        raise AnalysisError("O7: no print-option default found (confirmed 2 in to_string)")
+
+
 PINNED = {
     "numpoly.align.align_indeterminants": {"retain_coefficients": True, "retain_names": True},
     "numpoly.align.align_exponents": {"retain_coefficients": True, "retain_names": True},
@@ -828,6 +882,7 @@ def run_pairing(ctx) -> RuleResult:
     result = RuleResult("R-OPT-PAIRING", "O7: graded=/reverse= receive the *_graded/*_reverse key "
                         "of the right family, or the function's own graded/reverse parameters")
     _o7(ctx, result)
+    _o7_printoptions(ctx, result)
     result.floor = 12
     return result
 
